@@ -66,10 +66,11 @@ func (r *Reader) ReadUe() (res uint32) {
 // ReadSe .
 func (r *Reader) ReadSe() (res int32) {
 	ui32 := r.ReadUe()
+	half := int32(ui32 >> 1)
 	if ui32&0x01 != 0 {
-		res = (int32(res) + 1) / 2
+		res = half + 1
 	} else {
-		res = -int32(res) / 2
+		res = -half
 	}
 	return
 }
